@@ -19,6 +19,9 @@ type formatter struct {
 	freeFloating []*token.Token
 
 	lastSemiColon *token.Token
+
+	// id of the token created last with nothing taken from the pending list since; 0 otherwise
+	lastID token.ID
 }
 
 func NewFormatter() *formatter {
@@ -59,6 +62,7 @@ func (f *formatter) resetFreeFloating() {
 
 func (f *formatter) getFreeFloating() []*token.Token {
 	defer f.resetFreeFloating()
+	f.lastID = 0
 
 	if f.state == FormatterStateHTML {
 		t := &token.Token{
@@ -74,11 +78,20 @@ func (f *formatter) getFreeFloating() []*token.Token {
 }
 
 func (f *formatter) newToken(id token.ID, val []byte) *token.Token {
-	return &token.Token{
+	// a sign directly behind a sign would read as an increment or a decrement: `- --$a ** 2`
+	if len(f.freeFloating) == 0 &&
+		((f.lastID == '-' && (id == '-' || id == token.T_DEC)) || (f.lastID == '+' && (id == '+' || id == token.T_INC))) {
+		f.addFreeFloating(token.T_WHITESPACE, []byte(" "))
+	}
+
+	t := &token.Token{
 		ID:           id,
 		Value:        val,
 		FreeFloating: f.getFreeFloating(),
 	}
+	f.lastID = id
+
+	return t
 }
 
 func (f *formatter) formatList(nodes []ast.Vertex, separator byte) []*token.Token {
